@@ -450,7 +450,7 @@ pub fn gen_sample(rx: &Rx, ch: &mut Choices<'_>) -> Vec<u8> {
     fn expand_node(n: &Node, ch: &mut Choices<'_>, out: &mut Vec<u8>) {
         match n {
             Node::Lit(b) => out.push(*b),
-            Node::Any => out.push(*ch.pick(b"aZ0 \xff")),
+            Node::Any => out.push(*ch.pick(b"aZ0 \xff\r\x00\x0b\x85")),
             Node::Class { neg, items } => {
                 if *neg {
                     for cand in [b'q', b'Q', b'7', 0xfe, b'\n'] {
@@ -514,9 +514,9 @@ pub fn gen_sample(rx: &Rx, ch: &mut Choices<'_>) -> Vec<u8> {
         0 => {}
         1 => {
             // surround (unanchored search must still find it)
-            let mut v = vec![*ch.pick(b"xA\n\xff")];
+            let mut v = vec![*ch.pick(b"xA\n\xff\r")];
             v.extend(out);
-            v.push(*ch.pick(b"yB\n\x00"));
+            v.push(*ch.pick(b"yB\n\x00\r"));
             out = v;
         }
         2 => {
